@@ -1131,7 +1131,9 @@ class KullbackLeibler(Functional):
                 xlogy = scipy.special.xlogy(self.prior, self.prior / x)
                 res = (x - self.prior + xlogy).inner(self.domain.one())
 
-        if not np.isfinite(res):
+        # Where the prior vanishes, ``xlogy`` is 0 for every argument, but the
+        # functional is still infinite for negative ``x`` there
+        if not np.isfinite(res) or x.ufuncs.min() < 0:
             # In this case, some element was less than or equal to zero
             return np.inf
         else:
